@@ -207,6 +207,8 @@ fn search_typed(e: &Expression<'static>, t: &Typed, generic: bool) -> Result<Rcv
         Typed::U64(v) => go!(*v),
         Typed::Isize(v) => go!(*v),
         Typed::Usize(v) => go!(*v),
+        Typed::I128(v) => go!(*v),
+        Typed::U128(v) => go!(*v),
         Typed::F32(v) => go!(*v),
         Typed::F64(v) => go!(*v),
         Typed::Unit => go!(()),
